@@ -25,6 +25,9 @@ func mergeTooBig(ids []ID) bool {
 }
 
 func evMergeExt(t *Tracer, w Win, ids []ID, h, v int64) {
+	if !(w.validIDs(ids...)) {
+		return // outside the documented domain: not a case
+	}
 	if mergeTooBig(ids) {
 		return
 	}
@@ -54,6 +57,9 @@ func evMergeExt(t *Tracer, w Win, ids []ID, h, v int64) {
 }
 
 func evMergeSp(t *Tracer, w Win, ids []ID, z int64) {
+	if !(w.validIDs(ids...)) {
+		return // outside the documented domain: not a case
+	}
 	if mergeTooBig(ids) {
 		return
 	}
@@ -177,6 +183,9 @@ func (r Rng) mergeCandidates(w Win, h, v, spread int64, sp bool) []ID {
 }
 
 func evOverlapExt(t *Tracer, w Win, a, b []ID, arr bool) {
+	if !(w.validIDs(a...) && w.validIDs(b...)) {
+		return // outside the documented domain: not a case
+	}
 	ra, rb := w.embedExtList(a), w.embedExtList(b)
 	var o string
 	var res any
@@ -206,6 +215,9 @@ func evOverlapExt(t *Tracer, w Win, a, b []ID, arr bool) {
 }
 
 func evOverlapSp(t *Tracer, w Win, a, b []ID, arr bool) {
+	if !(w.validIDs(a...) && w.validIDs(b...)) {
+		return // outside the documented domain: not a case
+	}
 	ra, rb := w.embedSpList(a), w.embedSpList(b)
 	var o, o2 string
 	var res, res2 any
@@ -527,6 +539,9 @@ func treeDomainWin(w Win, ids []ID) *Win {
 // IsDense) over inputs that are all at least as fine as the target (h, v):
 // the groups formed and their density verdicts are the observable state.
 func evMergeSteps(t *Tracer, w Win, ids []ID, h, v int64) {
+	if !(w.validIDs(ids...)) {
+		return // outside the documented domain: not a case
+	}
 	var el []ID
 	mh, mv := h, v
 	for _, m := range ids {
@@ -577,6 +592,9 @@ func evMergeSteps(t *Tracer, w Win, ids []ID, h, v int64) {
 
 // evHigher: ExtendedSpatialID.Higher on its own (the floor ancestor).
 func evHigher(t *Tracer, w Win, m ID, dh, dv int64) {
+	if !(w.validIDs(m)) {
+		return // outside the documented domain: not a case
+	}
 	real := w.E(m)
 	var got string
 	o, _ := guard(func() (any, error) {
